@@ -47,6 +47,11 @@ Finished == \A t \in Threads : ai[t] > Case.reps
 
 LinIsExact == Finished => [mem |-> am, rets |-> ar] \in Lin(Case.w, Case.sg, Ops, Case.init)
 
+(* shared `expected` object: once the producer's compare-exchange has succeeded, only the consumer
+   writes it - at the end it holds the consumer's value whenever the consumer saw the hand-off *)
+HandOff == (Finished /\ Case.opk = "casx") =>
+             (ar[2] = <<1>> => am.x = Canon(Case.w, Ops[2][1].v))
+
 Commutative == Case.mix = 0 /\ Case.opk \in {"add", "sub", "and", "or", "xor", "fadd", "fsub", "fand", "for", "fxor",
                              "preinc", "predec", "postinc", "postdec", "casinc", "lock"}
 RECURSIVE FoldAll(_, _, _)
